@@ -59,6 +59,7 @@ func packageName(pkg string) string {
 func Disassemble(main *runtime.Function, globals []Global, n int) map[string][]byte {
 
 	functionsByPkg := map[string]map[*runtime.Function]int{}
+	indexOf := map[*runtime.Function]int{}
 	importsByPkg := map[string]map[string]struct{}{}
 
 	c := len(main.Functions)
@@ -76,6 +77,7 @@ func Disassemble(main *runtime.Function, globals []Global, n int) map[string][]b
 		} else {
 			line = fn.Pos.Line
 		}
+		indexOf[fn] = i
 		if p, ok := functionsByPkg[fn.Pkg]; ok {
 			p[fn] = line
 		} else {
@@ -143,7 +145,10 @@ func Disassemble(main *runtime.Function, globals []Global, n int) map[string][]b
 			if fi.Name != fj.Name {
 				return fi.Name < fj.Name
 			}
-			return fi.File < fj.File
+			if fi.File != fj.File {
+				return fi.File < fj.File
+			}
+			return indexOf[fi] < indexOf[fj]
 		})
 
 		for _, fn := range functions {
